@@ -83,6 +83,33 @@ func main() {
 				}
 				return true
 			})
+			// the pooled filter: every acquire / release site of doFetch, in source order
+			var pool []string
+			ast.Inspect(fd.Body, func(n ast.Node) bool {
+				switch x := n.(type) {
+				case *ast.DeferStmt:
+					if t := f.Render(x); strings.Contains(t, "DocFieldsFilter(") {
+						pool = append(pool, t)
+					}
+					return false
+				case *ast.AssignStmt:
+					if t := f.Render(x); strings.Contains(t, "DocFieldsFilter(") {
+						pool = append(pool, t)
+					}
+					return false
+				case *ast.ExprStmt:
+					if t := f.Render(x); strings.Contains(t, "DocFieldsFilter(") {
+						pool = append(pool, t)
+					}
+					return false
+				case *ast.GoStmt:
+					if t := f.Render(x); strings.Contains(t, "DocFieldsFilter(") {
+						pool = append(pool, t)
+					}
+				}
+				return true
+			})
+			e.Strs("doFetchFilterPool", pool, "GrpcV1.doFetch: every statement that acquires or releases the pooled docFieldsFilter, in source order")
 			e.Strs("doFetchLoopCalls", calls, "GrpcV1.doFetch: per requested id - next document, field filter, pack, ids, send")
 		}
 		// ---- tryParseFieldsFilter
